@@ -310,9 +310,12 @@ def copy_ownership_obligations(world, prop='C13'):
                                   functions=[f'{rel}::{cname}.copy']))
             continue
         # shape of copy(): newcls.__dict__[key] = val for the attributes that are not parameters
+        def by_ref(v):      # the stored value is (possibly, on one branch) the original object
+            return isinstance(v, ast.Name) or (isinstance(v, ast.IfExp) and (
+                by_ref(v.body) or by_ref(v.orelse)))
         shares = any(isinstance(n, ast.Assign) and isinstance(n.targets[0], ast.Subscript)
                      and _dotted(n.targets[0].value).endswith('.__dict__')
-                     and isinstance(n.value, ast.Name) for n in ast.walk(cp.node))
+                     and by_ref(n.value) for n in ast.walk(cp.node))
         if not shares:
             obs.append(Obligation(oid, prop, 'effects', LOST, functions=[cp.target],
                                   detail='copy() no longer has the share-by-reference shape'))
